@@ -205,9 +205,13 @@ class Request(HTTPConnection):
             boundary = self.content_type.options["boundary"].encode("latin-1")
             return await self._parse_multipart(boundary, charset)
         if self.content_type == "application/x-www-form-urlencoded":
-            body = (await self.body).decode(
-                encoding=self.content_type.options.get("charset", "latin-1")
-            )
+            data = await self.body
+            try:
+                body = data.decode(
+                    encoding=self.content_type.options.get("charset", "latin-1")
+                )
+            except (LookupError, ValueError):  # unknown charset, undecodable body
+                raise MalformedMultipart("Cannot decode the form body") from None
             return FormData(parse_qsl(body, keep_blank_values=True))
 
         raise UnsupportedMediaType(
